@@ -17,7 +17,7 @@ def run(ctx):
         raise BrokenObligation("translator testcase_extract.py", r.stdout + r.stderr)
     ctx.cov["translator"] = r.stdout.strip()
     ctx.also_props = ("C20",)
-    ctx.prove(extra_modules=["GMGProofs.Props.C20s", "GMGProofs.Props.C10e", "GMGProofs.Props.C10f", "GMGProofs.Props.C09c"])  # totality of the concrete cycles and of the start-up: no exit branch, no out-of-bounds store of the modelled assemblies
+    ctx.prove(extra_modules=["GMGProofs.Props.C20s", "GMGProofs.Props.C10e", "GMGProofs.Props.C10f", "GMGProofs.Props.C10j", "GMGProofs.Props.C09c"])  # totality of the concrete cycles and of the start-up: no exit branch, no out-of-bounds store of the modelled assemblies
     if ctx.tier == "quick":
         h = ctx.build_harness("h_solver")
         ctx.pipe([h, "options", "250"], "options", label="option-tuples")
